@@ -310,6 +310,12 @@ impl Skiplist {
 		self.arena.size() as u32
 	}
 
+	/// True once an insert did not fit: nothing more can be added.
+	#[inline]
+	pub fn arena_exhausted(&self) -> bool {
+		self.arena.is_exhausted()
+	}
+
 	/// Add a key
 	pub fn add(&self, key: &[u8], trailer: u64, timestamp: u64, value: &[u8]) -> Result<(), Error> {
 		let mut ins = Inserter::new();
